@@ -1,6 +1,8 @@
 package harness
 
 import (
+	"testing/synctest"
+	"github.com/bool64/cache"
 	"fmt"
 	"testing"
 )
@@ -38,8 +40,46 @@ func TestC18(t *testing.T) {
 	}
 
 	addC18Failover(t, e, cf)
+	addC18Conc(t, e, cf)
 
 	if err := cf.Write(e); err != nil {
 		t.Fatal(err)
+	}
+}
+
+// addC18Conc runs the C08 stress rounds with a counting tracker and compares the totals at quiescence
+// with what the callers saw: every Write counted once, every successful Delete once (plus the entries
+// DeleteAll removed), every Read as exactly one of hit / miss / expired (plus the entries ExpireAll touched).
+func addC18Conc(t *testing.T, e *Env, cf *CaseFile) {
+	rounds := e.Pick(10, 120)
+
+	for _, fl := range Flavours {
+		for r := 0; r < rounds; r++ {
+			conf := c08Conf{
+				Flavour: fl, Strategy: []string{"MostExpired", "LRU", "LFU"}[r%3], Limit: 0,
+				G: 4 + e.Rng.Intn(13), PerG: 20 + e.Rng.Intn(40), Seed: e.Rng.Int63n(1 << 40),
+				Mix: []string{"nodelall", "deletes", "default"}[r%3],
+			}
+
+			var run *c08Run
+
+			synctest.Test(t, func(t *testing.T) { run = runC08(conf) })
+
+			expAll, delAll := false, false
+
+			for _, o := range run.Ops {
+				expAll = expAll || o.Kind == "expire"
+				delAll = delAll || o.Kind == "clear"
+			}
+
+			st := []int64{run.Stats[cache.MetricWrite], run.Stats[cache.MetricDelete], run.Stats[cache.MetricHit],
+				run.Stats[cache.MetricMiss], run.Stats[cache.MetricExpired]}
+			seen := []int64{run.NWrite, run.NDelOK, run.NHit, run.NMiss, run.NExp}
+
+			cf.Add(fmt.Sprintf("C18C (mkC18C %s %s %s %s)", ZList(st), ZList(seen), Bool(expAll), Bool(delAll)),
+				"conc/"+fl+"/"+conf.Mix, map[string]any{"conf": conf, "stats(write,delete,hit,miss,expired)": st,
+					"seen": seen, "how": "stress round of TestC08's runner with this configuration; totals compared at quiescence"},
+				run.NDelOK > 0 && run.NHit > 0 && run.NMiss > 0)
+		}
 	}
 }
